@@ -37,7 +37,9 @@ Calibration
   same, so only constants representable in the dtype are generated.
 * with two arrays and align_arrays=True the chunks are first refined to the common breakpoints; "chunk smaller than
   depth" (and hence the documented ValueError under allow_rechunk=False) is judged on the refined chunks.
-* No alarm on the unchanged tree at seeds 0, 1, 2, 7, 12345.
+* No alarm on the unchanged tree at seeds 0, 1, 2, 7, 12345 (quick) and on a thorough run (90720 cases).
+* The number of blocks per array is capped at 64 (3-d arrays cut into single cells gave cases of several seconds that
+  hit the per-case watchdog on a loaded machine: inconclusive, never a verdict).
 """
 from __future__ import annotations
 
@@ -60,6 +62,7 @@ RULE = ("cases = (facet ident|map|map2|swv, shape 1-3 d with lengths 1-9, chunki
 ASSUMPTIONS = ["NumPy 2.x np.pad / sliding_window_view define the expected values", "sync scheduler",
                "the stencil functions are harness code: pure, slicing based, window truncated at the block edge"]
 BUDGET = {"quick": 60, "thorough": 560}
+CASE_TIMEOUT = 180
 FLOORS = {"quick": {"evaluations": 2300, "distinct_nontrivial": 1700,
                     "counters": {"ident_compared": 560, "map_compared": 950, "swv_compared": 480, "rechunk_needed": 1000,
                                  "norechunk_valueerror": 115, "asymmetric_depth": 115, "trim_false": 170,
@@ -122,10 +125,23 @@ def _rand_shape(rng, minnd=1, maxnd=3):
     return tuple(rng.choice((1, 2, 3, 4, 5, 6, 7, 9)) for _ in range(nd))
 
 
+def _capped_chunks(rng, shape, cap=64):
+    """Random chunking with at most `cap` blocks (keeps every case far below the per-case watchdog)."""
+    chunks = list(A.rand_chunks(rng, shape))
+    while True:
+        nb = 1
+        for c in chunks:
+            nb *= len(c)
+        if nb <= cap:
+            return tuple(chunks)
+        ax = max(range(len(chunks)), key=lambda a: len(chunks[a]))
+        chunks[ax] = A.rand_comp(rng, shape[ax], "two")
+
+
 def _rand_overlap(rng, kind):
     shape = _rand_shape(rng, minnd=2 if kind == "map2" and rng.random() < 0.5 else 1)
     nd = len(shape)
-    chunks = A.rand_chunks(rng, shape)
+    chunks = _capped_chunks(rng, shape)
     dtype = rng.choice(("int64", "int64", "float64", "int32"))
     uniform = rng.random() < 0.35
     ub = rng.choice(BKINDS)
@@ -172,7 +188,7 @@ def _rand_overlap(rng, kind):
         else:
             yshape = shape
         case["yshape"] = list(yshape)
-        case["ychunks"] = _chunks_desc(A.rand_chunks(rng, yshape))
+        case["ychunks"] = _chunks_desc(_capped_chunks(rng, yshape, cap=24))
         case["align"] = True
         if rng.random() < 0.2:                 # align_arrays=False needs equal block structure
             case["align"] = False
@@ -184,7 +200,7 @@ def _rand_overlap(rng, kind):
 def _rand_swv(rng):
     shape = _rand_shape(rng)
     nd = len(shape)
-    chunks = A.rand_chunks(rng, shape)
+    chunks = _capped_chunks(rng, shape)
     mode = rng.choice(("none", "int", "tuple", "tuple"))
     if mode == "none":
         axis = None
